@@ -260,36 +260,13 @@ func (e *EvalBinaryNode) evalSpecialized(scope *Scope, executionState ExecutionS
 		return boolFalseResultContainer, &ErrSide{error: err}
 	}
 
-	evaluationResult, err := e.evaluationFn(scope, executionState, e.leftEvaluator, e.rightEvaluator)
-
-	// This case can in dynamic nodes,
-	// for example: RefNode("value") > NumberNode("float64")
-	// in the first evaluation "value" is float64 so we will have float64 > float64 comparison fn
-	// after the first evaluation, let's assume that "value" is changed to int64 - we need to change
-	// the comparison fn
-	if err != nil {
-		if typeGuardErr, isTypeGuardError := err.error.(ErrTypeGuardFailed); isTypeGuardError {
-			// Fix the type info, thanks to the type guard info
-			if err.IsLeft {
-				e.leftType = typeGuardErr.ActualType
-			}
-
-			if err.IsRight {
-				e.rightType = typeGuardErr.ActualType
-			}
-
-			// redefine the evaluation fn
-			e.evaluationFn = e.lookupEvaluationFn()
-			if e.evaluationFn == nil {
-				return boolFalseResultContainer, err
-			}
-
-			// try again
-			return e.evalSpecialized(scope, executionState)
-		}
-	}
-
-	return evaluationResult, err
+	// The operand types the node is specialised to are either constant or were just taken from the
+	// operands (evaluateDynamicNode), so a type guard failure of an operand is a type error of the
+	// expression, not a stale specialisation. It used to be answered by patching the cached type from the
+	// error and evaluating again, which destroyed the specialisation of constant nodes for good
+	// (`!"x" AND TRUE` failed for ever after one point with a non-boolean x) and never terminated when the
+	// reported type equalled the cached one (`-'a' == 'b'` overflowed the stack).
+	return e.evaluationFn(scope, executionState, e.leftEvaluator, e.rightEvaluator)
 }
 
 // evaluateDynamicNode fetches the value of the right and left node at evaluation time (aka "runtime")
